@@ -530,7 +530,12 @@ class ExprMixin:
         if isinstance(container, SV) and isinstance(container.ty, TList):
             from . import specfn as _sf
 
-            return _sf.list_elems(container).contains(self._elem(x, container.ty.elem))
+            xe = self._elem(x, container.ty.elem)
+            mem = _sf.list_elems(container).contains(xe)
+            # definition of the ghost element set, instantiated at x (theory-valid)
+            i = z3.Int(f"i!mem{self.fresh_id()}")
+            self.st.pc.append(mem.t == z3.Exists([i], z3.And(i >= 0, i < container.length().t, container[SV(i, TInt)].t == xe.t)))
+            return mem
         if isinstance(container, (str, bytes)) and not isinstance(x, SV):
             return x in container
         if isinstance(container, (str, bytes)):
@@ -543,7 +548,9 @@ class ExprMixin:
             return v.ty.is_some(v)
         if isinstance(container, SV):
             if isinstance(container.ty, TOpt):
-                raise Unsupported("'in' on optional")
+                self.oblige("attr", container.ty.is_some(container), self.cur_node, "'in' applied to None")
+                self.assume(container.ty.is_some(container))
+                return self.contains(container.ty.val(container), x)
             return container.contains(x)
         raise Unsupported(f"'in' on {container!r}")
 
